@@ -17,6 +17,7 @@ package c11
 import (
 	"bytes"
 	"context"
+	"crypto/ed25519"
 	"crypto/hmac"
 	"crypto/sha256"
 	"encoding/hex"
@@ -29,6 +30,8 @@ import (
 	"testing"
 	"time"
 
+	"github.com/go-jose/go-jose/v4"
+	"github.com/go-jose/go-jose/v4/jwt"
 	"github.com/openbao/openbao/sdk/v2/helper/salt"
 	"github.com/openbao/openbao/sdk/v2/helper/wrapping"
 	"github.com/openbao/openbao/sdk/v2/logical"
@@ -607,6 +610,30 @@ func (g *gen) ignKeys() []string {
 	return out
 }
 
+var c11JWTSigner jose.Signer
+
+// c11JWT: a compact JWS (EdDSA, one of consts.AllowedJWTSignatureAlgorithmsBao) with the claims of a response-wrapping
+// JWT: jti = the wrapping token id
+func c11JWT(t *testing.T, jti string) string {
+	if c11JWTSigner == nil {
+		_, priv, err := ed25519.GenerateKey(nil)
+		if err != nil {
+			t.Fatal(err)
+		}
+		sg, err := jose.NewSigner(jose.SigningKey{Algorithm: jose.EdDSA, Key: priv}, (&jose.SignerOptions{}).WithType("JWT"))
+		if err != nil {
+			t.Fatal(err)
+		}
+		c11JWTSigner = sg
+	}
+	tok, err := jwt.Signed(c11JWTSigner).Claims(jwt.Claims{ID: jti, Issuer: "vault", Subject: "", Expiry: jwt.NewNumericDate(time.Unix(1700000060, 0))}).
+		Claims(map[string]any{"addr": "http://127.0.0.1:8200", "type": "wrapping"}).Serialize()
+	if err != nil {
+		t.Fatal(err)
+	}
+	return tok
+}
+
 func (g *gen) tokenLike(emptyPct int) string {
 	if g.rng.Chance(emptyPct) {
 		return ""
@@ -745,9 +772,18 @@ func TestVerifC11Hash(t *testing.T) {
 				}
 				if g.rng.Chance(35) {
 					wTok, wAcc, wWrapped = g.tokenLike(5), g.tokenLike(15), g.tokenLike(50)
-					if g.rng.Chance(20) { // JWT-shaped wrapping token (two dots)
-						wTok = "eyJ" + wTok + "." + g.canary() + "." + g.canary()
-						g.canaries = append(g.canaries, wTok)
+					if g.rng.Chance(25) { // JWT-shaped wrapping token (two dots)
+						if g.rng.Chance(55) {
+							// a REAL signed JWT as wrapInCubbyhole mints it for format=jwt: its jti claim is the wrapping
+							// token's id, a secret that must not reach a non-raw entry in clear either
+							jti := g.canary()
+							wTok = c11JWT(t, jti)
+							g.canaries = append(g.canaries, wTok, jti)
+							g.strings = append(g.strings, jti)
+						} else {
+							wTok = "eyJ" + wTok + "." + g.canary() + "." + g.canary()
+							g.canaries = append(g.canaries, wTok)
+						}
 					}
 					wrap = &wrapping.ResponseWrapInfo{TTL: time.Minute, Token: wTok, Accessor: wAcc, WrappedAccessor: wWrapped,
 						CreationTime: time.Unix(1700000000, 0), CreationPath: "secret/x"}
